@@ -244,5 +244,413 @@ def main():
     print(json.dumps(out, default=repr))
 
 
+
+
+# ====================================================================== reference dictionary (C03/C04/C09/C10)
+class RefItem:
+    __slots__ = ('value', 'expire', 'tag', 'store', 'access', 'count')
+
+
+class CK:
+    """Key under the documented equality (C02): native numbers compare numerically, bool/None/containers
+    by type and structure; an entry keeps the key object it was created with."""
+
+    def __init__(self, k):
+        self.k = k
+        if type(k) in (int, float) and (type(k) is float or -2 ** 63 <= k < 2 ** 63):
+            self.c = ('num', k)
+        else:
+            self.c = (type(k).__name__, k)
+
+    def __hash__(self):
+        return hash(self.c)
+
+    def __eq__(self, o):
+        return self.c == o.c
+
+    def __repr__(self):
+        return repr(self.k)
+
+
+class KeyedDict(dict):
+    def __getitem__(self, k):
+        return dict.__getitem__(self, CK(k))
+
+    def __setitem__(self, k, v):
+        dict.__setitem__(self, CK(k), v)
+
+    def __delitem__(self, k):
+        dict.__delitem__(self, CK(k))
+
+    def __contains__(self, k):
+        return dict.__contains__(self, CK(k))
+
+    def get(self, k, d=None):
+        return dict.get(self, CK(k), d)
+
+    def pop(self, k, *a):
+        return dict.pop(self, CK(k), *a)
+
+    def __iter__(self):
+        return (ck.k for ck in dict.__iter__(self))
+
+    def items(self):
+        return ((ck.k, v) for ck, v in dict.items(self))
+
+
+class RefCache:
+    """Reference: insertion-ordered dictionary whose items carry expiry and tag; written from the
+    statements of C03/C04 (visible <=> no expiry or now < expire_time)."""
+
+    def __init__(self):
+        self.d = KeyedDict()    # key -> RefItem, insertion ordered (overwrite keeps position and key object)
+        self.hits = self.misses = 0
+
+    def vis(self, k, now):
+        it = self.d.get(k)
+        return it is not None and (it.expire is None or now < it.expire)
+
+    def set(self, k, v, expire, tag, now):
+        it = self.d.get(k) or RefItem()
+        it.value, it.expire, it.tag = v, (None if expire is None else now + expire), tag
+        it.store = it.access = now
+        it.count = 0
+        self.d[k] = it
+        return True
+
+    def add(self, k, v, expire, tag, now):
+        if self.vis(k, now):
+            return False
+        return self.set(k, v, expire, tag, now)
+
+    def get(self, k, default, now, stats):
+        if self.vis(k, now):
+            if stats:
+                self.hits += 1
+            return self.d[k]
+        if stats:
+            self.misses += 1
+        return None
+
+    def touch(self, k, expire, now):
+        if not self.vis(k, now):
+            return False
+        self.d[k].expire = None if expire is None else now + expire
+        return True
+
+    def incr(self, k, delta, default, now):
+        if self.vis(k, now):
+            it = self.d[k]
+            it.value += delta
+            it.store = now
+            return it.value
+        if default is None:
+            raise KeyError(k)
+        self.set(k, default + delta, None, None, now)
+        return default + delta
+
+    def pop(self, k, now):
+        if self.vis(k, now):
+            return self.d.pop(k)
+        return None
+
+    def expire(self, now):
+        gone = [k for k, it in self.d.items() if it.expire is not None and it.expire < now]
+        keep = [k for k, it in self.d.items() if it.expire is not None and it.expire == now]
+        for k in gone:
+            del self.d[k]
+        return len(gone), keep
+
+    def evict(self, tag):
+        gone = [k for k, it in self.d.items() if it.tag == tag and tag is not None]
+        for k in gone:
+            del self.d[k]
+        return len(gone)
+
+
+def _cmp_state(c, ref, now, where):
+    keys = list(c)
+    if not (len(keys) == len(ref.d) and all(same(x, y) for x, y in zip(keys, list(ref.d)))):
+        return '%s: iteration %r, reference %r' % (where, keys[:12], list(ref.d)[:12])
+    if [repr(x) for x in reversed(c)] != [repr(x) for x in reversed(list(ref.d))]:
+        return '%s: reversed iteration differs' % where
+    if len(c) != len(ref.d):
+        return '%s: len %d, reference %d' % (where, len(c), len(ref.d))
+    return None
+
+
+def _history(seed, steps, policy, stats, big, core, diskcache):
+    import random
+    rnd = random.Random(seed)
+    d = tempfile.mkdtemp()
+    clock = [1000.0]
+    real = core.time.time
+    core.time.time = lambda: clock[0]
+    try:
+        c = diskcache.Cache(d, eviction_policy=policy, cull_limit=0, statistics=stats,
+                            disk_min_file_size=(8 if big else 2 ** 15), tag_index=bool(seed % 2))
+        ref = RefCache()
+        import pickle, pickletools
+        keys = ['a', 'b', 'c', 1, 2.5, b'a', (1, 2), None,
+                pickletools.optimize(pickle.dumps((1, 2), protocol=pickle.HIGHEST_PROTOCOL)), 1.0, True]
+        vals = [0, 1, -3, 2.5, 'x' * 20, b'y' * 20, None, (1, 'z'), float('inf')]
+        ttls = [None, 5, 0, -1, 0.5, 100, 3]
+        tags = [None, 't1', 't2']
+        for step in range(steps):
+            op = rnd.choice(['set', 'set', 'add', 'get', 'get', 'touch', 'incr', 'decr', 'pop', 'delete', 'in',
+                             'tick', 'tick', 'expire', 'evict', 'stats', 'getx', 'peekitem', 'tick0'])
+            k = rnd.choice(keys)
+            now = clock[0]
+            where = 'seed %d step %d %s(%r) at t=%r' % (seed, step, op, k, now)
+            if op == 'tick':
+                clock[0] += rnd.choice([0.5, 1, 2, 2.5, 5])
+            elif op == 'tick0':
+                # land exactly on an expiry time when there is one
+                exps = sorted(it.expire for it in ref.d.values() if it.expire is not None and it.expire > now)
+                if exps:
+                    clock[0] = exps[0]
+            elif op == 'set':
+                v, ttl, tag = rnd.choice(vals), rnd.choice(ttls), rnd.choice(tags)
+                if c.set(k, v, expire=ttl, tag=tag) is not True:
+                    return where + ': set did not return True'
+                ref.set(k, v, ttl, tag, now)
+            elif op == 'add':
+                v, ttl, tag = rnd.choice(vals), rnd.choice(ttls), rnd.choice(tags)
+                got, exp = c.add(k, v, expire=ttl, tag=tag), ref.add(k, v, ttl, tag, now)
+                if got != exp:
+                    return where + ': add returned %r, reference %r' % (got, exp)
+            elif op in ('get', 'getx'):
+                it = ref.get(k, None, now, stats)
+                if op == 'get':
+                    got = c.get(k, default='MISS')
+                    exp = 'MISS' if it is None else it.value
+                    if not same(got, exp):
+                        return where + ': get returned %r, reference %r' % (got, exp)
+                else:
+                    got = c.get(k, default='MISS', expire_time=True, tag=True)
+                    exp = ('MISS', None, None) if it is None else (it.value, it.expire, it.tag)
+                    if not (same(got[0], exp[0]) and got[1:] == exp[1:]):
+                        return where + ': get(expire_time, tag) returned %r, reference %r' % (got, exp)
+            elif op == 'touch':
+                ttl = rnd.choice(ttls)
+                got, exp = c.touch(k, expire=ttl), ref.touch(k, ttl, now)
+                if got != exp:
+                    return where + ': touch returned %r, reference %r' % (got, exp)
+            elif op in ('incr', 'decr'):
+                if k in ref.d and ref.vis(k, now) and not (type(ref.d[k].value) in (int, float) and ref.d[k].value == ref.d[k].value and abs(ref.d[k].value) != float('inf')):
+                    continue        # incr is specified for values held natively as finite numbers
+                delta = rnd.choice([1, 2, -1]) * (1 if op == 'incr' else -1)
+                default = rnd.choice([0, 10, None])
+                try:
+                    exp = ref.incr(k, delta, default, now)
+                except KeyError:
+                    exp = KeyError
+                try:
+                    got = c.incr(k, delta, default) if op == 'incr' else c.decr(k, -delta, default)
+                except KeyError:
+                    got = KeyError
+                if got != exp:
+                    return where + ': %s returned %r, reference %r' % (op, got, exp)
+            elif op == 'pop':
+                it = ref.pop(k, now)
+                got = c.pop(k, default='MISS')
+                exp = 'MISS' if it is None else it.value
+                if not same(got, exp):
+                    return where + ': pop returned %r, reference %r' % (got, exp)
+            elif op == 'delete':
+                it = ref.pop(k, now)
+                got = c.delete(k)
+                if got != (it is not None):
+                    return where + ': delete returned %r, reference %r' % (got, it is not None)
+            elif op == 'in':
+                if (k in c) != ref.vis(k, now):
+                    return where + ': membership %r, reference %r' % (k in c, ref.vis(k, now))
+            elif op == 'expire':
+                n, boundary = ref.expire(now)
+                got = c.expire()
+                if got != n:
+                    return where + ': expire() returned %r, reference %r' % (got, n)
+            elif op == 'evict':
+                tag = rnd.choice(tags)
+                got, exp = c.evict(tag), ref.evict(tag)
+                if got != exp:
+                    return where + ': evict returned %r, reference %r' % (got, exp)
+            elif op == 'stats':
+                got = c.stats(enable=stats)
+                if stats and got != (ref.hits, ref.misses):
+                    return where + ': stats %r, reference %r' % (got, (ref.hits, ref.misses))
+            elif op == 'peekitem' and ref.d:
+                # specified for a live last item; expired ends are removed by peekitem itself
+                last = list(ref.d)[-1]
+                if ref.vis(last, now):
+                    gk, gv = c.peekitem()
+                    if not (same(gk, last) and same(gv, ref.d[last].value)):
+                        return where + ': peekitem returned %r' % ((gk, gv),)
+            bad = _cmp_state(c, ref, clock[0], where)
+            if bad:
+                return bad
+        w = c.check()
+        if w:
+            return 'seed %d: check() reports %r after the history' % (seed, [str(x.message) for x in w][:3])
+        return None
+    finally:
+        core.time.time = real
+        shutil.rmtree(d, ignore_errors=True)
+
+
+def _bulk(core, diskcache):
+    """Bulk removal and iteration far beyond the 100-row page: ties, tags, reversed iteration."""
+    d = tempfile.mkdtemp()
+    clock = [1000.0]
+    real = core.time.time
+    core.time.time = lambda: clock[0]
+    try:
+        c = diskcache.Cache(d, cull_limit=0)
+        n = 350
+        for i in range(n):
+            c.set(i, i, expire=(10 if i % 3 else 20) if i % 7 else None, tag='bulk' if i % 2 else 'keep')
+        if list(c) != list(range(n)) or list(reversed(c)) != list(range(n - 1, -1, -1)):
+            return 'iteration over %d items is not insertion order' % n
+        if list(c.iterkeys()) != sorted(range(n)) or list(c.iterkeys(reverse=True)) != sorted(range(n), reverse=True):
+            return 'iterkeys over %d items is not sorted order' % n
+        # evict more than one page of one tag, before anything else is removed
+        c2 = diskcache.Cache(d + '/second', cull_limit=0, tag_index=True)
+        for i in range(260):
+            c2.set(('k', i), i, tag='bulk' if i % 5 else 'keep')
+        expb2 = len([i for i in range(260) if i % 5])
+        gotb2 = c2.evict('bulk')
+        if gotb2 != expb2 or len(c2) != 260 - expb2 or any(c2.get(('k', i), tag=True)[1] != 'keep' for i in range(0, 260, 5)):
+            return "evict('bulk') removed %d of %d tagged items (left %d)" % (gotb2, expb2, len(c2))
+        c2.close()
+        clock[0] += 15
+        exp = len([i for i in range(n) if i % 7 and i % 3])
+        got = c.expire()
+        if got != exp or len(c) != n - exp:
+            return 'expire() removed %d of %d expired items (many share one expiry time)' % (got, exp)
+        left = [i for i in range(n) if not (i % 7 and i % 3)]
+        expb = len([i for i in left if i % 2])
+        gotb = c.evict('bulk')
+        if gotb != expb or len(c) != len(left) - expb:
+            return "evict('bulk') removed %d of %d tagged items" % (gotb, expb)
+        rest = len(c)
+        if c.clear() != rest or len(c) != 0 or list(c) != []:
+            return 'clear() did not remove all %d items' % rest
+        return None
+    finally:
+        core.time.time = real
+        shutil.rmtree(d, ignore_errors=True)
+
+
+def _cull_relation(core, diskcache, tier):
+    """One write removes only expired items and -- only at the size limit, in policy order -- evicted
+    ones, at most cull_limit in total; cull() returns what it removed."""
+    import random
+    rnd = random.Random(7)
+    for policy, col in (('least-recently-stored', 'store'), ('least-recently-used', 'access'),
+                        ('least-frequently-used', 'count'), ('none', None)):
+        for cull_limit in (0, 1, 2, 10):
+            for nexp in (0, 1, 3, 12):
+                d = tempfile.mkdtemp()
+                clock = [1000.0]
+                real = core.time.time
+                core.time.time = lambda: clock[0]
+                try:
+                    c = diskcache.Cache(d, eviction_policy=policy, cull_limit=0, size_limit=2 ** 30,
+                                        disk_min_file_size=64)
+                    meta = {}
+                    for i in range(30):
+                        clock[0] += 1
+                        ttl = 5 if i < nexp else None
+                        c.set('k%d' % i, b'v' * 200, expire=ttl)
+                        meta['k%d' % i] = dict(store=clock[0], access=clock[0], count=0, exp=None if ttl is None else clock[0] + ttl)
+                    for i in rnd.sample(range(nexp, 30), 8):
+                        clock[0] += 1
+                        c.get('k%d' % i)
+                        if policy == 'least-recently-used':
+                            meta['k%d' % i]['access'] = clock[0]
+                        if policy == 'least-frequently-used':
+                            meta['k%d' % i]['count'] += 1
+                    clock[0] += 100
+                    for over in (False, True):
+                        c.reset('cull_limit', cull_limit)
+                        c.reset('size_limit', 1 if over else 2 ** 40)
+                        before = set(c)
+                        clock[0] += 1
+                        c.set('new%s' % over, 1)
+                        meta['new%s' % over] = dict(store=clock[0], access=clock[0], count=0, exp=None)
+                        after = set(c)
+                        gone = before - after
+                        where = 'policy %s cull_limit %d expired %d at-limit %s' % (policy, cull_limit, nexp, over)
+                        if len(gone) > cull_limit:
+                            return where + ': one write removed %d items %r' % (len(gone), sorted(gone))
+                        evicted = [k for k in gone if meta[k]['exp'] is None or meta[k]['exp'] >= clock[0]]
+                        if evicted and (not over or policy == 'none'):
+                            return where + ': evicted live items %r' % evicted
+                        if evicted and col:
+                            worst = max(meta[k][col] for k in evicted)
+                            remaining = [k for k in after if k in meta and k not in gone]
+                            if any(meta[k][col] < worst for k in remaining if (meta[k]['exp'] is None or meta[k]['exp'] >= clock[0])):
+                                return where + ': evicted %r out of policy order' % evicted
+                        c.reset('cull_limit', 0)
+                    # explicit cull(): first expired, then until volume <= size_limit or empty
+                    c.reset('size_limit', 1)
+                    before = len(c)
+                    got = c.cull()
+                    if got != before - len(c):
+                        return 'policy %s: cull() returned %d but removed %d' % (policy, got, before - len(c))
+                    if policy != 'none' and len(c) != 0 and c.volume() > 1:
+                        return 'policy %s: cull() stopped at volume %d > size_limit with %d items' % (policy, c.volume(), len(c))
+                finally:
+                    core.time.time = real
+                    shutil.rmtree(d, ignore_errors=True)
+    return None
+
+
+def _dict_standin(pid, tier):
+    import diskcache
+    from diskcache import core
+    seed0 = int(os.environ.get('VERIF_SEED', '0') or 0)
+    nh, steps = (24, 70) if tier == 'quick' else (240, 120)
+    bad = None
+    cases = 0
+    for i in range(nh):
+        pol = ['least-recently-stored', 'least-recently-used', 'least-frequently-used', 'none'][i % 4]
+        try:
+            bad = _history(seed0 * 1000 + i, steps, pol, stats=bool(i % 3 == 0), big=bool(i % 2), core=core, diskcache=diskcache)
+        except Exception as e:
+            import traceback
+            bad = 'history seed %d raised %r: %s' % (seed0 * 1000 + i, e, traceback.format_exc()[-300:])
+        cases += steps
+        if bad:
+            break
+    out = [result(pid + '.standin.reference_dictionary_histories', bad is None,
+                  '%d random histories x %d steps over 8 keys, 9 values, 7 ttls, 3 tags, mocked clock, 4 policies, cull_limit=0' % (nh, steps),
+                  cases, bad)]
+    try:
+        b2 = _bulk(core, diskcache)
+    except Exception as e:
+        b2 = 'bulk scenario raised %r' % (e,)
+    out.append(result(pid + '.standin.bulk_removal_and_iteration', b2 is None, '350 items, ties on expiry time, 2 tags', 350, b2))
+    try:
+        b3 = _cull_relation(core, diskcache, tier)
+    except Exception as e:
+        b3 = 'cull scenario raised %r' % (e,)
+    out.append(result(pid + '.standin.cull_relation', b3 is None,
+                      '4 policies x cull_limit {0,1,2,10} x expired {0,1,3,12} x at/below size limit; cull()', 128, b3))
+    return out
+
+
+def C03(tier):
+    return _dict_standin('C03', tier)
+
+
+def C04(tier):
+    return _dict_standin('C04', tier)
+
+
+def C09(tier):
+    return _dict_standin('C09', tier)
+
+
 if __name__ == '__main__':
     main()
